@@ -153,7 +153,7 @@ def _zupdate(variant, lam_kind, lam_expr, extra_pre, schema):
                                         "(b2 < block_id or (b2 == block_id and (r2 < row or (r2 == row and c2 < col)))) and 0 <= j2 and j2 < num_blocks - b2 "
                                         "and 0 <= q and q < num_blocks - block_id, indices[q] != cidx(b2, r2, c2, j2, block_size, num_blocks)), "
                                         "pat=(indices[q], cidx(b2, r2, c2, j2, block_size, num_blocks)))",
-                                        "lambda_sum == %s" % lam_expr.replace('b2', 'block_id'),
+                                        "lambda_sum == %s" % lam_expr.replace('b2', 'block_id').replace('r2', 'row').replace('c2', 'col'),
                                         "num_occurrences == num_blocks - block_id",
                                         "args.rho * num_occurrences == args.rho * (num_blocks - block_id)",
                                         "soft(scaled_point_sum, lambda_sum, args.rho * num_occurrences) == " + (_ZVAL % lam_expr).replace('b2', 'block_id').replace('r2', 'row').replace('c2', 'col'),
@@ -172,3 +172,75 @@ def _zupdate(variant, lam_kind, lam_expr, extra_pre, schema):
 
 
 _zupdate('#float', 'real', "args.sparsity_weight * (num_blocks - b2)", ["args.sparsity_weight >= 0"], {})
+
+# matrix-valued lambda: frame / exception-freedom contract only (the class-value invariant is proved for the
+# scalar form; for the matrix form Lambda_class is carried by compute_lambda_sum#array's own postcondition)
+contract(SV + 'admm_update_z#array', props=['C02', 'C19'],
+         params=dict(args='obj:ADMMArguments', u='arr1[real]', x='arr1[real]'), returns='arr1[real]',
+         requires=["args.rho > 0", "args.window_size >= 1", "args.num_data_series >= 1",
+                   "args.window_size * args.num_data_series < 67108864", "u.shape[0] == x.shape[0]",
+                   "2*x.shape[0] == args.window_size*args.num_data_series*(args.window_size*args.num_data_series + 1)",
+                   "args.sparsity_weight.shape[0] == args.window_size*args.num_data_series",
+                   "args.sparsity_weight.shape[1] == args.window_size*args.num_data_series",
+                   "forall(lambda a, b: args.sparsity_weight[a, b] >= 0)"],
+         ghost={'schema': {'ADMMArguments.sparsity_weight': 'arr2[real]'}},
+         ensures=["result.shape[0] == x.shape[0]", "fresh(result)", "unchanged(u, x, args, args.sparsity_weight)"],
+         loops={1: dict(inv=[], modifies=['z_update']), 2: dict(inv=[], modifies=['z_update']),
+                3: dict(inv=["start_column <= col"], modifies=['z_update'])})
+
+_NW = "(args.window_size * args.num_data_series)"
+_SIZES = ["2*x.shape[0] == %s*(%s + 1)" % (_NW, _NW), "z.shape[0] == x.shape[0]", "u.shape[0] == x.shape[0]"]
+_ARGS_OK = ["args.rho > 0", "args.window_size >= 1", "args.num_data_series >= 1", _NW + " < 67108864",
+            "args.sparsity_weight >= 0"]
+
+contract(SV + 'run_admm_optimization', props=['C02', 'C19'],
+         params=dict(args='obj:ADMMArguments', empirical_covariance='arr2[real]'), returns='arr1[real]',
+         requires=_ARGS_OK + ["empirical_covariance.shape[0] == " + _NW, "empirical_covariance.shape[1] == " + _NW],
+         assigns=['args.rho'],
+         ghost={'kind:z_old': 'arr1[real]',
+                'returns': dict(X='x', Z='z', U='u', ZO='z_old', stopped='stopped', rounds='rounds'),
+                'return_kinds': dict(X='arr1[real]', Z='arr1[real]', U='arr1[real]', ZO='arr1[real]', stopped='bool', rounds='int'),
+                'nullable': []},
+         ensures=["2*result.shape[0] == %s*(%s + 1)" % (_NW, _NW),
+                  ("returns-the-last-x", "same(result, X)"),
+                  ("budget", "0 <= rounds and (rounds <= args.max_iterations or rounds == 0)"),
+                  ("stops-early-only-by-the-rule", "stopped or rounds == args.max_iterations or args.max_iterations < 0"),
+                  # conditional clause of the property: when the stopping rule fired, the returned Theta is within the primal
+                  # tolerance of Z, and Z is exactly block-Toeplitz (constant on every Toeplitz class)
+                  ("on-rule-exit:primal-residual-within-tolerance",
+                   "implies(stopped, norm(lambda i: X[i] - Z[i], X.shape[0]) <= "
+                   "(sqrt(X.shape[0]) * args.absolute_tolerance + 0.0001) + args.relative_tolerance * "
+                   "max(norm(lambda i: X[i], X.shape[0]), norm(lambda i: Z[i], X.shape[0])))"),
+                  ("on-rule-exit:dual-residual-within-tolerance",
+                   "implies(stopped, norm(lambda i: args.rho * (Z[i] - ZO[i]), X.shape[0]) <= "
+                   "(sqrt(X.shape[0]) * args.absolute_tolerance + 0.0001) + args.relative_tolerance * "
+                   "norm(lambda i: args.rho * U[i], X.shape[0]))"),
+                  ("on-rule-exit:z-is-block-toeplitz",
+                   "implies(stopped, forall(lambda b2, r2, c2, j2, j3: implies(validcls(b2, r2, c2, args.num_data_series, args.window_size) "
+                   "and 0 <= j2 and j2 < args.window_size - b2 and 0 <= j3 and j3 < args.window_size - b2, "
+                   "Z[cidx(b2, r2, c2, j2, args.num_data_series, args.window_size)] == "
+                   "Z[cidx(b2, r2, c2, j3, args.num_data_series, args.window_size)])))"),
+                  "fresh(result)", "unchanged(empirical_covariance)"],
+         loops={1: dict(ghost={'stopped': 'False', 'rounds': '0'}, ghost_break={'stopped': 'True', 'rounds': 'rounds + 1'},
+                        ghost_update={'rounds': 'rounds + 1'},
+                        # evenness of m(m+1), via the division-free form of tri_rank
+                        lemmas_init=["2*tri_rank(matrix_size, 0, 0) == -(matrix_size*(matrix_size + 1))",
+                                     "2*compressed_array_size == matrix_size*(matrix_size + 1)"],
+                        inv=_SIZES + ["args.rho > 0", "not stopped", "rounds == iteration",
+                                      "fresh(x) and fresh(z) and fresh(u)"],
+                        modifies=['args.rho'])})
+
+AF = 'fast_ticc.admm.front_end.'
+from pyvc.spec import classschema as _cs
+_cs('ADMMResult', 'fast_ticc.containers.results.ADMMResult', dict(theta='arr1[real]'))
+contract(AF + 'admm_optimize_theta', props=['C02', 'C19'],
+         params=dict(empirical_covariance='arr2[real]', sparsity_weight='real', window_size='int', num_data_series='int',
+                     rho='real', rho_update='opaque:callable', max_iterations='int', absolute_tolerance='real',
+                     relative_tolerance='real', verbose='bool'),
+         ghost={'nullable': ['rho_update']},
+         returns='obj:ADMMResult',
+         requires=["rho > 0", "window_size >= 1", "num_data_series >= 1", "window_size*num_data_series < 67108864",
+                   "sparsity_weight >= 0", "empirical_covariance.shape[0] == window_size*num_data_series",
+                   "empirical_covariance.shape[1] == window_size*num_data_series"],
+         ensures=["2*result.theta.shape[0] == window_size*num_data_series*(window_size*num_data_series + 1)",
+                  "fresh(result)", "fresh(result.theta)", "unchanged(empirical_covariance)"])
